@@ -219,6 +219,20 @@ fn parse_mode(kind: &str, s: &str) -> String {
         "nt_iri" | "ttl_iri" => format!("<http://example.org/s> <http://example.org/p> <{s}> .\n"),
         "ttl_prefix" => format!("@prefix {s}: <http://example.org/ns/> .\n{s}:a <http://example.org/p> {s}:b .\n"),
         "gtrig_var" => format!("?{s} <http://example.org/p> ?{s} .\n"),
+        "ttl_pname" => {
+            // s = namespace IRI, U+001F, local name (decoded); the local name is re-escaped for Turtle
+            let mut it = s.splitn(2, '\u{1f}');
+            let ns = it.next().unwrap_or("");
+            let local = it.next().unwrap_or("");
+            let mut esc = String::new();
+            for c in local.chars() {
+                if "~.-!$&'()*+,;=/?#@%_".contains(c) {
+                    esc.push('\\');
+                }
+                esc.push(c);
+            }
+            format!("@prefix p: <{ns}> .\n<http://example.org/s> <http://example.org/p> p:{esc} .\n")
+        }
         _ => return "n/a:unknown kind".into(),
     };
     let kind = kind.to_string();
@@ -257,7 +271,9 @@ fn parse_mode(kind: &str, s: &str) -> String {
                 }
             }};
         }
-        if kind.starts_with("nt_") {
+        if kind == "ttl_pname" {
+            drive_t!(turtle::parse_str(&doc));
+        } else if kind.starts_with("nt_") {
             drive_t!(nt::parse_str(&doc));
         } else if kind.starts_with("ttl_") {
             drive_t!(turtle::parse_str(&doc));
